@@ -1,7 +1,7 @@
 (* Properties.v — the property theorems, and nothing else.  Each is closed by [exact] of a lemma
    proved in the Proofs* files and followed by Print Assumptions. *)
 From Coq Require Import Permutation.
-From Godi Require Import Base GDfs GKahn GKahnComplete GraphSpec Conc Web Model Check ProofsGraph ProofsConc ProofsWeb ProofsRegistry ProofsRuntime ProofsClosed ProofsTerm ProofsWf ProofsSingle ProofsOutputs ProofsFresh ProofsGen ProofsFrame ProofsFrozen ProofsOnce ProofsConserve ProofsOnceWorld ProofsCloses.
+From Godi Require Import Base GDfs GKahn GKahnComplete GraphSpec Conc Web Model Check ProofsGraph ProofsConc ProofsWeb ProofsRegistry ProofsRuntime ProofsClosed ProofsTerm ProofsWf ProofsSingle ProofsOutputs ProofsFresh ProofsGen ProofsFrame ProofsFrozen ProofsOnce ProofsConserve ProofsOnceWorld ProofsCloses ProofsOrder.
 
 (* ---------------------------------------------------------------- C01 *)
 Theorem C01_resolving_a_singleton_is_a_table_read : forall fuel rs h d,
@@ -292,6 +292,28 @@ Proof. exact resolution_only_adds_owned_instances. Qed.
 Print Assumptions C10_owned_instances_stay_owned_until_close.
 
 (* ---------------------------------------------------------------- C11 *)
+(* "reverse order of creation, children before parents, singletons last": a scope's Close first disposes everything of
+   its descendants and then its own instances, in the order of its disposal list - which is newest first, every newly
+   owned instance being put at its head - and the provider's Close disposes every scope first and its singletons last *)
+Theorem C11_scope_close_disposes_descendants_first_then_its_own : forall fuel ord p h,
+  h < length (p_scopes p) -> sc_open (get_scope p h) = true ->
+  exists before descs',
+    snd (fst (close_scope (S fuel) ord p h)) = before ++ fst (close_insts descs' h (sc_disp (get_scope p h))).
+Proof. exact scope_close_disposes_descendants_first. Qed.
+Print Assumptions C11_scope_close_disposes_descendants_first_then_its_own.
+
+Theorem C11_provider_close_disposes_singletons_last : forall ord p,
+  p_open p = true ->
+  exists before descs',
+    snd (fst (close_provider ord p)) = before ++ fst (close_insts descs' OWNER_PROV (p_sdisp p)).
+Proof. exact provider_close_disposes_singletons_last. Qed.
+Print Assumptions C11_provider_close_disposes_singletons_last.
+
+Theorem C11_a_list_is_disposed_in_its_own_order : forall c own l,
+  map closed_inst (fst (close_insts c own l)) = map Some l.
+Proof. exact close_insts_exact. Qed.
+Print Assumptions C11_a_list_is_disposed_in_its_own_order.
+
 Theorem C11_resolution_never_restructures_scopes : forall fuel rs h d sh,
   scopes_shape (rs_p rs) = sh -> scopes_shape (rs_p (fst (resolve_d fuel rs h d))) = sh.
 Proof. exact resolve_keeps_shape. Qed.
